@@ -124,6 +124,7 @@ func (vc *VC) exec(b *ssa.BasicBlock, in ssa.Instruction, st *State, reach strin
 		vc.vals[x] = Sc{"Fn", f}
 		vc.assume("true", sNot(sEq(f, "nilFn"))) // a closure value is never nil
 		vc.makeClosureHook(x, st, reach)          // effects.go
+		vc.closureDefHook(x, f, st, reach)        // closuredef.go (w-c01)
 	case *ssa.MakeMap:
 		vc.vals[x] = vc.makeMap(x, st)
 	case *ssa.MapUpdate:
